@@ -66,6 +66,9 @@ def make_sqlalchemy_provider(md, scratch):
     from sqlalchemy import Column as SAColumn, Integer, MetaData, Table as SATable, inspect, text
     from sqllineage.core.metadata.sqlalchemy import SQLAlchemyMetaDataProvider
 
+    import tempfile
+
+    scratch = tempfile.mkdtemp(dir=scratch)  # one fresh set of database files per provider: no leftovers from other cases
     p = SQLAlchemyMetaDataProvider("sqlite:///:memory:")
     meta = MetaData()
     for full, cols in md.items():
@@ -75,7 +78,6 @@ def make_sqlalchemy_provider(md, scratch):
             with p.engine.connect() as conn:
                 conn.execute(text(f"ATTACH DATABASE '{path}' AS '{schema}'"))
         SATable(table, meta, *[SAColumn(c, Integer) for c in cols], schema=schema)
-    meta.drop_all(bind=p.engine)
     meta.create_all(bind=p.engine)
     return p
 
